@@ -46,7 +46,7 @@ func (c *PairingController) Handle(cont util.Container) (util.Container, error) 
 	case PairingMethodAdd:
 		err := c.database.SaveEntity(entity)
 		if err != nil {
-			log.Info.Panic(err)
+			// The endpoint logs the error and responds with an error status
 			return nil, err
 		}
 	default:
